@@ -3,31 +3,59 @@
 package bldrun
 
 import (
+	"encoding/json"
+	"fmt"
+	"regexp"
+	"strings"
+
 	"github.com/grafana/cog/verifx/gschema"
 	"github.com/grafana/cog/verifx/irgen"
 )
 
+// ---- several builders for one type ---------------------------------------------------------
+//
 // Multi-rule veneer scenarios: several builders for ONE type, told apart by a
 // constant their constructors initialise (the `duplicate` + `initialize` +
 // `omit` builder veneers), with and without a constructor argument
 // (`promote_options_to_constructor`, listed before or after `initialize`).
 // The type is used as a member, as an array item and as a map value of Root,
-// so the converter has to choose a builder in each of those positions.
+// so the converter has to choose a builder in each of those positions. Shape
+// additionally carries 0..4 constant members (constructor assignments that
+// exist before the veneers add theirs).
 
-// ShapesSchema is Root{main?: Shape, shapes?: [Shape], named?: {string: Shape}}, Shape{kind: string, size?: int64, label?: string}.
-func ShapesSchema() gschema.Schema {
+const maxShapeConsts = 4
+
+// ShapesSchema is Root{main?: Shape, shapes?: [Shape], named?: {string: Shape}},
+// Shape{kind: string, c1..cn: constants, size?: int64, label?: string}.
+func ShapesSchema(consts int) gschema.Schema {
 	shape := irgen.Ref(gschema.Pkg + ".Shape")
+	fields := []irgen.Field{{Name: "kind", Required: true}}
+	types := []gschema.Term{irgen.S("string")}
+	for i := 1; i <= consts; i++ {
+		fields = append(fields, irgen.Field{Name: fmt.Sprintf("c%d", i), Required: true})
+		types = append(types, gschema.Term{K: "const", A: fmt.Sprintf("disc:v%d", i)})
+	}
+	fields = append(fields, irgen.Field{Name: "size"}, irgen.Field{Name: "label"})
+	types = append(types, irgen.S("int64"), irgen.S("string"))
 	return gschema.Schema{Objs: []gschema.Obj{
 		{Name: "Root", T: irgen.StructN(
 			[]irgen.Field{{Name: "main"}, {Name: "shapes"}, {Name: "named"}},
 			[]gschema.Term{shape, irgen.Array(shape), irgen.Map(shape)})},
-		{Name: "Shape", T: irgen.StructN(
-			[]irgen.Field{{Name: "kind", Required: true}, {Name: "size"}, {Name: "label"}},
-			[]gschema.Term{irgen.S("string"), irgen.S("int64"), irgen.S("string")})},
+		{Name: "Shape", T: irgen.StructN(fields, types)},
 	}}
 }
 
-func isShapes(s gschema.Schema) bool { return s.String() == ShapesSchema().String() }
+// shapeConsts: -1 when s is not a shapes schema, else its number of constant members.
+func shapeConsts(s gschema.Schema) int {
+	for n := 0; n <= maxShapeConsts; n++ {
+		if s.String() == ShapesSchema(n).String() {
+			return n
+		}
+	}
+	return -1
+}
+
+func isShapes(s gschema.Schema) bool { return shapeConsts(s) >= 0 }
 
 const (
 	shapesHead = "language: all\npackage: p\nbuilders:\n" +
@@ -41,7 +69,7 @@ const (
 	shapesTail = "options:\n  - omit: {by_builder: Circle.kind}\n  - omit: {by_builder: Square.kind}\n"
 )
 
-// ScenarioVariants are the rule combinations applied to ShapesSchema.
+// ScenarioVariants are the rule combinations applied to the shapes schemas.
 func ScenarioVariants() []Variant {
 	return []Variant{
 		{Name: "kinds", Applies: isShapes, YAML: shapesHead + shapesInit + shapesTail},
@@ -50,22 +78,145 @@ func ScenarioVariants() []Variant {
 	}
 }
 
-// DocsFor lists the candidate documents of a case, simplest first: the
-// alphabet product of the schema, except for the scenario schemas, whose
-// documents use each builder's constant in each position.
-func DocsFor(c *Case) []string {
-	if !isShapes(c.Schema) {
-		return c.Schema.Documents()
+// Doc is a candidate document; Label (scenario documents only) names the class
+// of value it stands for and becomes part of the failure kind.
+type Doc struct{ Text, Label string }
+
+func shapeDocs(consts int) []Doc {
+	sh := func(kind string, rest string) string {
+		s := `{"kind":"` + kind + `"`
+		for i := 1; i <= consts; i++ {
+			s += fmt.Sprintf(`,"c%d":"v%d"`, i, i)
+		}
+		if rest != "" {
+			s += "," + rest
+		}
+		return s + "}"
 	}
-	return []string{
-		`{"main":{"kind":"circle","size":1}}`,
-		`{"main":{"kind":"square","size":1}}`,
-		`{"shapes":[{"kind":"circle","size":2}]}`,
-		`{"shapes":[{"kind":"square","size":3}]}`,
-		`{"shapes":[{"kind":"circle","size":2},{"kind":"square","size":3,"label":"sq"}]}`,
-		`{"named":{"a":{"kind":"circle","size":7}}}`,
-		`{"named":{"a":{"kind":"square","size":7}}}`,
-		`{"main":{"kind":"square","size":1},"shapes":[{"kind":"circle","size":2},{"kind":"square","size":3,"label":"sq"}],"named":{"a":{"kind":"square","size":7}}}`,
-		`{"main":{"kind":"square","label":"no size"}}`,
+	return []Doc{
+		{`{"main":` + sh("circle", `"size":1`) + `}`, "first kind as member"},
+		{`{"main":` + sh("square", `"size":1`) + `}`, "second kind as member"},
+		{`{"shapes":[` + sh("circle", `"size":2`) + `]}`, "first kind as array item"},
+		{`{"shapes":[` + sh("square", `"size":3`) + `]}`, "second kind as array item"},
+		{`{"shapes":[` + sh("circle", `"size":2`) + `,` + sh("square", `"size":3,"label":"sq"`) + `]}`, "both kinds as array items"},
+		{`{"named":{"a":` + sh("circle", `"size":7`) + `}}`, "first kind as map value"},
+		{`{"named":{"a":` + sh("square", `"size":7`) + `}}`, "second kind as map value"},
+		{`{"main":` + sh("square", `"size":1`) + `,"shapes":[` + sh("circle", `"size":2`) + `,` + sh("square", `"size":3,"label":"sq"`) + `],"named":{"a":` + sh("square", `"size":7`) + `}}`, "both kinds everywhere"},
+		{`{"main":` + sh("square", `"label":"no size"`) + `}`, "promoted member absent"},
 	}
 }
+
+// ---- struct-level defaults overriding member-level defaults ------------------------------------
+//
+// Root{f: Rng | *{from: "x"}} with Rng{from: string | *"d", to: string | *"d"}: the
+// member f declares a default for the whole struct that overrides the default
+// Rng declares for its own member. Judged plain and under the fieldargs /
+// fieldopts veneers (f is one of the rewritten root members).
+
+// StructDefault is the Term.Default flavour "a struct default giving member `from`".
+const StructDefault = "structdef"
+
+func init() {
+	prev := gschema.DefaultHook
+	gschema.DefaultHook = func(s gschema.Schema, t gschema.Term) (any, bool) {
+		if t.Default == StructDefault {
+			return map[string]any{"from": "x"}, true
+		}
+		if prev != nil {
+			return prev(s, t)
+		}
+		return nil, false
+	}
+}
+
+// StructDefaultSchemas: required and optional member f.
+func StructDefaultSchemas() []gschema.Schema {
+	from := irgen.S("string")
+	from.Default = "scalar" // "d"
+	rng := gschema.Obj{Name: "Rng", T: irgen.StructN([]irgen.Field{{Name: "from", Required: true}, {Name: "to", Required: true}}, []gschema.Term{from, from})}
+	f := irgen.Ref(gschema.Pkg + ".Rng")
+	f.Default = StructDefault
+	var out []gschema.Schema
+	for _, req := range []bool{true, false} {
+		out = append(out, gschema.Schema{Objs: []gschema.Obj{{Name: "Root", T: irgen.Struct1("f", req, f)}, rng}})
+	}
+	return out
+}
+
+func isStructDefault(s gschema.Schema) bool {
+	for _, x := range StructDefaultSchemas() {
+		if x.String() == s.String() {
+			return true
+		}
+	}
+	return false
+}
+
+var structDefaultDocs = []Doc{
+	{`{"f":{"from":"x","to":"t"}}`, "member at the struct-level default"},
+	{`{"f":{"from":"d","to":"t"}}`, "member at the member-level default"},
+	{`{"f":{"from":"zzz","to":"t"}}`, "member at neither default"},
+	{`{"f":{"from":"zzz","to":"d"}}`, "other member at its default"},
+	{`{"f":{"from":"x","to":"d"}}`, "every member at the builder's default"},
+	{`{}`, "absent"},
+}
+
+// DocsFor lists the candidate documents of a case, simplest first: the
+// alphabet product of the schema, except for the scenario schemas, whose
+// documents are chosen to use each builder / each default in each position.
+func DocsFor(c *Case) []Doc {
+	switch {
+	case isShapes(c.Schema):
+		return shapeDocs(shapeConsts(c.Schema))
+	case isStructDefault(c.Schema):
+		return structDefaultDocs
+	}
+	var out []Doc
+	for _, d := range c.Schema.Documents() {
+		out = append(out, Doc{Text: d})
+	}
+	return out
+}
+
+// ---- other numeric bounds ------------------------------------------------------------------------
+//
+// Grammar G constrains integers to [0, 5[ (inclusive minimum, exclusive
+// maximum). The "xbounds" flavour rewrites every rendering to ]0, 5]
+// (exclusive minimum, inclusive maximum); the reference validators are built
+// from the rewritten text.
+
+var (
+	reJSBounds  = regexp.MustCompile(`"minimum":\s*0,(\s*)"exclusiveMaximum":\s*5`)
+	reOABounds  = regexp.MustCompile(`"minimum":\s*0,(\s*)"maximum":\s*5,(\s*)"exclusiveMaximum":\s*true`)
+	reCueBounds = regexp.MustCompile(`>=0 & <5`)
+)
+
+func BoundsVariant() Variant {
+	return Variant{
+		Name: "xbounds",
+		Applies: func(s gschema.Schema) bool {
+			found := false
+			for _, o := range s.Objs {
+				walkTerm(o.T, func(t gschema.Term) {
+					if t.K == "scalar" && t.Constr && t.A != "string" && !strings.HasPrefix(t.A, "float") {
+						found = true
+					}
+				})
+			}
+			return found
+		},
+		Rewrite: func(format, text string) string {
+			switch format {
+			case "jsonschema":
+				return reJSBounds.ReplaceAllString(text, `"exclusiveMinimum": 0,${1}"maximum": 5`)
+			case "openapi":
+				return reOABounds.ReplaceAllString(text, `"minimum": 0,${1}"exclusiveMinimum": true,${2}"maximum": 5`)
+			case "cue":
+				return reCueBounds.ReplaceAllString(text, ">0 & <=5")
+			}
+			return text
+		},
+	}
+}
+
+var _ = json.Marshal
